@@ -22,6 +22,8 @@ INT_MAX = {
 }
 INT_BITS = {"u8": 8, "u16": 16, "u32": 32, "u64": 64, "u128": 128, "usize": 64, "bool": 1}
 LEN_MAX = 2**63 - 1
+# collection name -> upper bound on its element count (isize::MAX bytes / lower bound of the element size)
+CNT_BOUNDS = {}
 
 
 class Lin:
